@@ -35,6 +35,7 @@ type Behaviour struct {
 	BogusPermille          int // additionally emit an answer carrying an id nobody asked
 	JunkPermille           int // additionally emit an unrelated packet (unknown magic, short answer, unsolicited pong)
 	NoPong                 bool
+	StaleInfoPermille      int // getMasterchainInfo reports a head a few blocks old (a lagging replica behind one address)
 }
 
 // Answer is a packet the server is ready to send; the driver picks among ready answers in any order.
@@ -80,6 +81,7 @@ type Server struct {
 	Beh   Behaviour
 
 	Head     uint32
+	MinHead  uint32
 	HeadLog  []HeadEvent // every head value this server ever reported, with the instant
 	pending  []*Answer
 	held     []*held
@@ -103,7 +105,7 @@ type HeadEvent struct {
 }
 
 func New(w *core.World, key adnl.ServerKey, sch tlref.Schema, index int, head uint32) *Server {
-	return &Server{W: w, Key: key, Sch: sch, Index: index, Head: head}
+	return &Server{W: w, Key: key, Sch: sch, Index: index, Head: head, MinHead: head}
 }
 
 func (s *Server) st(c *core.Conn) *sconn { return c.ServerData.(*sconn) }
@@ -374,12 +376,17 @@ func (s *Server) liteAnswer(c *core.Conn, q []byte) []byte {
 	switch fn {
 	case s.Sch.ID("liteServer.getMasterchainInfo"):
 		w.U32(s.Sch.ID("liteServer.masterchainInfo"))
-		s.blockIDExt(w, s.Head)
-		sr := sha256.Sum256([]byte(fmt.Sprintf("state-%d", s.Head)))
+		head := s.Head
+		if s.permille(s.Beh.StaleInfoPermille) && head > s.MinHead+3 {
+			head -= uint32(1 + s.W.Ch.Choose(3))
+			s.W.Probe("stale-masterchain-info")
+		}
+		s.blockIDExt(w, head)
+		sr := sha256.Sum256([]byte(fmt.Sprintf("state-%d", head)))
 		w.Raw(sr[:])
 		zr, zf := BlockID(0)
 		w.U32(0xffffffff).Raw(zr[:]).Raw(zf[:])
-		s.reportHead(c, s.Head)
+		s.reportHead(c, head)
 		return w.B
 	case s.Sch.ID("liteServer.getTime"):
 		now := s.W.StartTime().Add(s.W.Now()).Unix()
